@@ -1,6 +1,9 @@
 import Model.Compress
 import Model.CompressHeap
 import Model.CompressRecv
+import Model.CompressSnappy
+import Model.CompressSend
+import Model.CompressLz4Block
 import Driver.Util
 namespace Driver.C18
 open Util Compress
@@ -481,6 +484,82 @@ def negosStep (name : Option String) (numConns : Nat) (s : NegosSt) (tok : Strin
     | none => (s, "bad-step")
   | _ => (s, "bad-step")
 
+
+/-- `oklen:<n>` | `err` | `none` as a LENGTH (never expanded to bytes: op `big` runs at 256 MiB) -/
+def parseLenRes (s : String) : Option (Option (Except Unit Nat)) :=
+  if s == "none" then some none
+  else if s == "err" then some (some (.error ()))
+  else if s.startsWith "oklen:" then (s.drop 6).toString.toNat?.map fun n => some (.ok n)
+  else none
+
+/-- ops `big` / `bigx`: build then read one frame, through lengths only (`finishLen`, `readLen`:
+    `C18_finish_by_length`, `C18_read_by_length`) -/
+def bigOp (comp : String) (ver hflag bodyLen : Nat) (enc dec : Option (Except Unit Nat)) : String :=
+  let hs := if (UInt8.ofNat ver &&& 0x7f) > 2 then 9 else 8
+  let flag := (UInt8.ofNat hflag &&& flagCompress) == flagCompress
+  let has := comp != "none"
+  let encA : Option (Except Unit Nat) := if has then some (enc.getD (.error ())) else none
+  match finishLen hs (hs + bodyLen) flag encA with
+  | .error e => "build=" ++ errName e
+  | .ok l =>
+    let field := l - hs
+    let decA : Option (Except Unit Nat) := if has then some (dec.getD (.error ())) else none
+    let rd := match readLen (toInt32 (field % 4294967296)) field flag decA with
+      | .error e => errName e
+      | .ok n => s!"ok:len={n},same=true"
+    s!"build=ok:len={l},field={field % 4294967296} read={rd}"
+
+
+/-! op `senderr <codec> <step>…` — compressor errors on the send path of a real connection (Model/CompressSend.lean):
+      `<kind>/<f|s>/<blob>`  one request through Conn.exec; f = the compressor's Encode refuses this body
+      `+<kind>/<blob>`       the same, but the peer withholds its answer (the call stays in flight)
+      `r`                    the peer answers everything it withheld
+    answers: what the caller got, how many Encode calls ran, streams taken / calls registered afterwards,
+    and the frames the peer has read since the last answer (`<opcode>/<compress bit>/<same|diff>`: payload
+    decoded by an independent decoder = the body the builder makes without a compressor). -/
+
+structure SendDrv where
+  st      : SendSt
+  pending : List Int
+  next    : Int
+
+def sendCodec (fail : Bool) : Codec :=
+  { enc := fun x => if fail then .error () else .ok (0x5A :: x), dec := fun y => .ok (y.drop 1) }
+
+def sendFrameStr (f : Framer) (body w : List UInt8) : String :=
+  match f.decode w with
+  | .ok (h, b) => s!"{h.op.toNat}/{(h.flags &&& 1).toNat}/{if b == body then "same" else "diff"}"
+  | .error _ => "undecodable"
+
+def senderrStep (codec : String) (d : SendDrv) (tok : String) : SendDrv × String :=
+  if tok == "r" then
+    let st := d.pending.foldl respond d.st
+    ({ d with st := st, pending := [] }, s!"released={d.pending.length},held={st.calls.length},calls={st.calls.length}")
+  else
+    let (isP, fields) := match tok.toList with
+      | '+' :: rest => (true, ("s" :: (String.ofList rest).splitOn "/"))
+      | _ => (false, match tok.splitOn "/" with | [k, fl, b] => [fl, k, b] | _ => [])
+    match fields with
+    | [fl, kind, blob] =>
+      match parseReq kind, parseBytes blob with
+      | some r, some body =>
+        let f := newFramer (if codec == "none" then none else some (sendCodec (fl == "f"))) 4
+        let encCalls := if (r.headerFlags f &&& flagCompress) == flagCompress then 1 else 0
+        let (st', res) := execSend f d.st r d.next body
+        match res with
+        | .failed e => ({ d with st := st' }, s!"{errName e},enc={encCalls},held={st'.calls.length},calls={st'.calls.length}")
+        | .sent w =>
+          let wire := s!"wire=[{sendFrameStr f body w}]"
+          if isP then
+            ({ st := st', pending := d.next :: d.pending, next := d.next + 1 },
+              s!"sent,enc={encCalls},held={st'.calls.length},calls={st'.calls.length},{wire}")
+          else
+            let st'' := respond st' d.next
+            ({ d with st := st'', next := d.next + 1 },
+              s!"ok,enc={encCalls},held={st''.calls.length},calls={st''.calls.length},{wire}")
+      | _, _ => (d, "bad-step")
+    | _ => (d, "bad-step")
+
 def step (_ : Unit) (ws : List String) : Unit × String :=
   ((), match ws with
   | ["req", kind, comp, ver, extra, stream, body, encres, _, _] =>
@@ -539,6 +618,41 @@ def step (_ : Unit) (ws : List String) : Unit × String :=
       | .ok y => "ok:" ++ canon y
       | .error _ => "err"
     | _, _ => "bad-op"
+  | ["lz4blk", block, n] =>
+    -- the LZ4 block format's decoder (Model/CompressLz4Block.lean) on arbitrary complete blocks
+    match parseBytes block, n.toNat? with
+    | some b, some n => (match lz4BlockDecode b n with | .ok o => "ok:" ++ canon o | .error _ => "err")
+    | _, _ => "bad-op"
+  | ["lz4brt", body, block] =>
+    -- what pierrec's CompressBlock produced for `body`, decoded by the format's decoder, must be `body`
+    match parseBytes body, parseBytes block with
+    | some b, some z =>
+      (match lz4BlockDecode z b.length with
+       | .ok d => if d == b then "ok:" ++ canon b else "format-mismatch:" ++ canon d
+       | .error _ => "format-reject")
+    | _, _ => "bad-op"
+  | ["snapdec", data] =>
+    -- the snappy block format's decoder (Model/CompressSnappy.lean) on arbitrary bytes
+    match parseBytes data with
+    | some d => (match snappyDecode d with | .ok b => "ok:" ++ canon b | .error _ => "err")
+    | none => "bad-op"
+  | ["snaprt", body, z] =>
+    -- what golang/snappy's Encode produced for `body`, decoded by the format's decoder, must be `body`;
+    -- `dom=true`: its elements are in the domain of C18_snappy_decodes_any_stream (checked by the harness)
+    match parseBytes body, parseBytes z with
+    | some b, some z =>
+      (match snappyDecode z with
+       | .ok d => if d == b then "ok:" ++ canon b ++ " dom=true" else "format-mismatch:" ++ canon d
+       | .error _ => "format-reject")
+    | _, _ => "bad-op"
+  | ["big", comp, ver, hflag, bodyLen, _, enc, dec] =>
+    match ver.toNat?, hflag.toNat?, bodyLen.toNat?, parseLenRes enc, parseLenRes dec with
+    | some v, some hf, some n, some e, some d => bigOp comp v hf n e d
+    | _, _, _, _, _ => "bad-op"
+  | ["bigx", comp, ver, hflag, bodyLen, _, enc, dec] =>
+    match ver.toNat?, hflag.toNat?, bodyLen.toNat?, parseLenRes enc, parseLenRes dec with
+    | some v, some hf, some n, some e, some d => bigOp comp v hf n e d
+    | _, _, _, _, _ => "bad-op"
   | ["hyp", _, _] => "roundtrip"
   | ["lz4rt", body] =>
     -- C18_lz4_delivered: Encode succeeds, prefix = length, an independent block decoder and Decode give the body back
@@ -570,6 +684,8 @@ def step (_ : Unit) (ws : List String) : Unit × String :=
     match nc.toNat? with
     | some n => runSteps (negosStep (if codec == "none" then none else some codec) n) { adv := [], live := [], started := false } steps
     | none => "bad-op"
+  | "senderr" :: codec :: toks =>
+    runSteps (senderrStep codec) { st := SendSt.init, pending := [], next := 1 } toks
   | "held" :: _ :: toks => runSteps heldStep St.init toks
   | "flight" :: _ :: _ :: toks => runSteps flightStep { st := St.init, reqs := [] } toks
   | _ => "bad-op")
